@@ -182,6 +182,18 @@ MUTATIONS = {
         ["C17", "C14"],
         [("flox/xarray.py", "    obj = obj.copy(deep=True)\n", "    obj = obj if isinstance(obj, xr.Dataset) else obj.copy(deep=True)\n")],
     ),
+    "final_astype_dropped": (
+        ["C11"],
+        [("flox/core.py", '    finalized[agg.name] = finalized[agg.name].astype(agg.dtype["final"], copy=False)\n    return finalized', "    return finalized")],
+    ),
+    "count_final_int32": (
+        ["C11"],
+        [("flox/aggregations.py", "    final_fill_value=0,\n    dtypes=np.intp,\n    final_dtype=np.intp,\n", "    final_fill_value=0,\n    dtypes=np.intp,\n    final_dtype=np.int32,\n")],
+    ),
+    "cohorts_out_chunks_len_blocks": (
+        ["C11"],
+        [("flox/core.py", "out_chunks[axis[-1]] = tuple(len(c) for c in chunks_cohorts.values())", "out_chunks[axis[-1]] = tuple(len(c) for c in chunks_cohorts.keys())")],
+    ),
     "nanmin_combine_min": (
         ["C04"],
         [("flox/aggregations.py", '    chunk="nanmin",\n    combine="nanmin",', '    chunk="nanmin",\n    combine="min",')],
